@@ -43,6 +43,7 @@ import (
 	"mellium.im/xmlstream"
 	"mellium.im/xmpp"
 	"mellium.im/xmpp/form"
+	"mellium.im/xmpp/internal/verifhook"
 	"mellium.im/xmpp/jid"
 	"mellium.im/xmpp/mux"
 	"mellium.im/xmpp/stanza"
@@ -203,6 +204,7 @@ func (c *Client) HandlePresence(p stanza.Presence, r xmlstream.TokenReadEncoder)
 	selectJoin:
 		select {
 		case c := <-channel.join:
+			verifhook.Yield("muc.presence.join.taken")
 			select {
 			case c.j <- p.From:
 				return nil
